@@ -143,6 +143,18 @@ theorem same_name_same_bytes (g : G) (t1 t2 : Tid) (h1 h2 : Hid) (k : ShmKey) (r
     · exact write_then_read g2 t2 t1 h2 h1 y2 y1 _ _ off b i2g2 i1g2 e2 e1 m2 m1 rfl rfl rfl (by rw [L1]; exact l2) l1
         rwWritable mapShared (by rw [segL]; exact lt1)
 
+/-- "while the segment exists": for EVERY interleaving of anything (SIGKILLs included) that contains
+    no `shm_unlink` of the name, the name stays bound to the same object — so every sequential
+    `p_shm_new` in between maps that object (`same_name_same_bytes`); and `shm_unlink (k)` is issued only by
+    `p_shm_free` of an owner's handle of `k` or on the failure path of a creator of `k` itself -/
+theorem segment_exists_until_owner_free (k : ShmKey) (s : SegId) (g : G) (as : List Action)
+    (hk : g.os.shmNames k = some s) (hq : NoShmUnlink k g as) :
+    (execAll g as).os.shmNames k = some s ∧
+    (∀ c : Call, c.next = .shmUnlink k →
+      (∃ st : ShmFreeSt, c = .shmFree st ∧ st.pc = .unlink ∧ st.h.key = k) ∨
+      (∃ hid e, ∃ st : ShmNewSt, c = .shmNew hid st ∧ st.pc = .fUnlink e ∧ st.key = k)) :=
+  ⟨shm_binding_execAll k s as g hk hq, fun c h => shm_unlink_only_by c k h⟩
+
 /-- every offset below `p_shm_get_size` is inside the handle's mapping and inside the object:
     a load there never faults — for the creator (zero bytes) and for any follower -/
 theorem no_fault_below_size (g : G) (t : Tid) (h : Hid) (k : ShmKey) (req : Nat) (ro : Bool)
@@ -337,6 +349,24 @@ theorem crash_recoverable_shm_partial (g : G) (t : Tid) (h1 h2 : Hid) (k : ShmKe
   simp only [recoverShm, hg1]
   rw [yk] at f1 f4 f5 f6 f7
   exact ⟨y', g1.os.nextSeg, by rw [f1, p3, p1], f2, f3, f4, f5, f6, f7⟩
+
+/-- the same with the crash point spelled out: after ANY schedule `as` from any state, thread `tc`
+    starts ANY library call `op` (p_shm_new, p_shm_free, lock, unlock, …), makes ANY number `j` of its
+    system calls, and its process is SIGKILLed; unless that leaves a zero-size segment (`hz`), a live
+    process recovers the name with the documented sequence -/
+theorem crash_recoverable_shm_at (g0 : G) (as : List Action) (tc : Tid) (op : Op) (j : Nat)
+    (t : Tid) (h1 h2 : Hid) (k : ShmKey) (sz sz' : Nat) :
+    let gc := crashAt (execAll g0 as) tc op j
+    Idle gc t → gc.hs h1 = none → gc.hs h2 = none → h1 ≠ h2 → sz ≠ 0 → sz' ≠ 0 →
+    (∀ s, gc.os.shmNames k = some s → (gc.os.segs s).bytes.length ≠ 0) →
+    ∃ y' snew, (recoverShm gc t h1 h2 k sz sz').hs h2 = some (gc.pidOf t, .shm y') ∧ y'.size = sz' ∧
+      (recoverShm gc t h1 h2 k sz sz').os.shmNames k = some snew ∧
+      ((recoverShm gc t h1 h2 k sz sz').os.segs snew).bytes = List.replicate sz' 0 ∧
+      (recoverShm gc t h1 h2 k sz sz').os.semNames (.lock k) = some y'.sem.obj ∧
+      ((recoverShm gc t h1 h2 k sz sz').os.sems y'.sem.obj).value = 1 := by
+  intro gc hi hh1 hh2 hne hs hs' hz
+  obtain ⟨y', snew, a, b, _, c, d, e, f⟩ := crash_recoverable_shm_partial gc t h1 h2 k sz sz' hi hh1 hh2 hne hs hs' hz
+  exact ⟨y', snew, a, b, c, d, e, f⟩
 
 /-- the crash point that cannot be recovered, on the model: process 0 is killed after the first
     system call of `p_shm_new` (name bound, size 0); `p_shm_new` by process 1 then fails with EINVAL
